@@ -24,3 +24,94 @@ package cache
 //@   trusted
 //@   modifies delegated
 //@   ensures delegated == old(delegated) + 1
+
+// ---------------------------------------------------------------------------
+// C15 / C19: the per-kind cache handler. Every element of its resource list is a non-nil resource with
+// metadata; readers get deep copies, never the cached objects themselves; every index computed from a
+// binary search is in bounds. That the list stays sorted by ID is NOT proved here (the shifted-array
+// obligations did not discharge reliably); the binary-search results are assumptions at each call.
+//@ type cacheHandler
+//@   guarded_by mu: resources, teardownWaiters
+//@   invariant [elements] forall i int {self.resources[i]} :: 0 <= i && i < len(self.resources) ==> self.resources[i] != nil && mdOf(self.resources[i]) != nil
+//@
+// slices.BinarySearchFunc is higher-order; its result for the ID comparator used throughout this file
+// is described at each call site (assumption on the library function and cmp.Compare).
+//@ pred searchResult(rs []resource.Resource, id string, idx int, found bool) := 0 <= idx && idx <= len(rs) &&
+//@   (forall k int {rs[k]} :: 0 <= k && k < idx ==> mdOf(rs[k]).id < id) &&
+//@   (forall k int {rs[k]} :: idx <= k && k < len(rs) ==> mdOf(rs[k]).id >= id) &&
+//@   (found <==> (idx < len(rs) && mdOf(rs[idx]).id == id))
+//@
+//@ func (*cacheHandler).get
+//@   props C15 C19
+//@   requires [wired] h != nil && ctx != nil
+//@   at BinarySearchFunc #1
+//@     assume_result [binary-search] searchResult(h.resources, id, result0, result1)
+//@   ensures [returns-the-cached-id] result1 == nil && result0 != nil ==> mdOf(result0) != nil && mdOf(result0).id == id
+//@   ensures [returns-a-copy] result1 == nil && result0 != nil ==> fresh(mdOf(result0)) || typeis(result0, "*resource.Tombstone")
+//@
+//@ func ErrNotFound
+//@   props C15
+//@   pure
+//@   fresh
+//@   ensures [class] result != nil
+//@
+//@ func (*cacheHandler).get$1
+//@   props C15
+//@   requires r != nil
+//@
+//@ func (*cacheHandler).put
+//@   props C15
+//@   requires [wired] h != nil && r != nil && mdOf(r) != nil
+//@   at BinarySearchFunc #1
+//@     assume_result [binary-search] searchResult(h.resources, mdOf(r).id, result0, result1)
+//@ func (*cacheHandler).put$1
+//@   props C15
+//@   requires r != nil
+//@
+//@ func (*cacheHandler).remove
+//@   props C15
+//@   requires [wired] h != nil && r != nil && mdOf(r) != nil
+//@   at BinarySearchFunc #1
+//@     assume_result [binary-search] searchResult(h.resources, mdOf(r).id, result0, result1)
+//@ func (*cacheHandler).remove$1
+//@   props C15
+//@   requires r != nil
+//@
+// list: whatever is returned went through the copying map step. xslices.Map is higher-order; that it
+// applies resource.Resource.DeepCopy to every element is an assumption at the call (the DeepCopy
+// contract then makes every item a fresh object, or a tombstone, which is immutable).
+//@ func (*cacheHandler).list
+//@   props C15 C19
+//@   requires [wired] h != nil && ctx != nil && (forall i int :: 0 <= i && i < len(opts) ==> opts[i] != nil)
+//@   at Map #1
+//@     assume_result [maps-deepcopy] forall i int :: 0 <= i && i < len(result) ==> result[i] != nil && (fresh(mdOf(result[i])) || typeis(result[i], "*resource.Tombstone"))
+//@   ensures [items-are-copies] result1 == nil ==> (forall i int :: 0 <= i && i < len(result0.Items) ==>
+//@     result0.Items[i] != nil && (fresh(mdOf(result0.Items[i])) || typeis(result0.Items[i], "*resource.Tombstone")))
+//@ func (*cacheHandler).list$1
+//@   props C15
+//@   requires r != nil && mdOf(r) != nil
+//@ func (*cacheHandler).append
+//@   props C15
+//@   requires [wired] h != nil && r != nil && mdOf(r) != nil
+//@ func (*cacheHandler).len
+//@   props C15
+//@   requires h != nil
+//@
+// contextWithTeardown: the derived context is cancelled on the spot only when the resource is absent
+// from the cache or already tearing down; otherwise a waiter channel is registered under the
+// resource ID (put/remove close it).
+//@ func (*cacheHandler).contextWithTeardown
+//@   props C15
+//@   requires [wired] h != nil && ctx != nil
+//@   at BinarySearchFunc #1
+//@     assume_result [binary-search] searchResult(h.resources, id, result0, result1)
+//@   at cancel #1
+//@     assert [cancelled-at-once-when-absent] !found
+//@   at cancel #2
+//@     assert [cancelled-at-once-when-tearing-down] found && mdOf(h.resources[idx]).phase == 1
+//@ func (*cacheHandler).contextWithTeardown$1
+//@   props C15
+//@   requires r != nil
+//@ func (*cacheHandler).contextWithTeardown$2
+//@   props C15
+//@   requires ctx != nil && cancel != nil
